@@ -264,7 +264,8 @@ class FileReader(FileBase):
             raise OSError(msg)
 
         nbytes = 0
-        read_buffer_view = memoryview(read_buffer)
+        # Count in bytes whatever the item size of the caller's buffer
+        read_buffer_view = memoryview(read_buffer).cast("B")
         while True:
             nbytes_read = self.file_obj.readinto(read_buffer_view[nbytes:])
             if nbytes_read is None:
